@@ -69,6 +69,194 @@ func init() {
 		Floor: map[string]int{"corpus": 2},
 		Run:   runR108,
 	})
+	core.Register(&core.Rule{
+		ID:    "R12.9",
+		Title: "a memo is keyed by everything its value depends on",
+		Text: "In the generator packages (cmd, codegen/*): a function that both looks a package-level map up and stores its own result into it (a memo) uses a key that mentions every parameter the function's body uses: " +
+			"a result that also depends on a parameter left out of the key (the package root, a flag) is served to a later call with a different value of that parameter — generation then depends on what was generated, or registered, earlier in the process.",
+		Props: []string{"C12", "C09"},
+		Floor: map[string]int{"v2": 1, "root": 1},
+		Run:   runR129,
+	})
+	core.Register(&core.Rule{
+		ID: "R13.4", Generated: true,
+		Title: "a record-typed default is built by the nested record's own decoder",
+		Text: "In every generated populateLocalDefaultValues: where a field whose type is a generated record (or union) is given its default by allocating an instance, the same guarded block decodes the schema literal into it " +
+			"(<field>.UnmarshalRestLi) or asks it to populate its defaults — never a bare allocation: the nested type's own defaulted fields are filled in by its decoder, so `{}` as a default means \"all of the nested defaults\", not a zero struct.",
+		Props: []string{"C13"},
+		Floor: map[string]int{"corpus": 3},
+		Run:   runR134,
+	})
+}
+
+func runR134(c *core.Ctx) {
+	if c.Corpus.Failure != "" {
+		return
+	}
+	for _, g := range genModel(c) {
+		fd := g.Methods["populateLocalDefaultValues"]
+		if fd == nil || fd.Body == nil {
+			continue
+		}
+		inf := g.inf()
+		par := core.Parents(fd)
+		recv := recvObj(inf, fd)
+		ast.Inspect(fd.Body, func(n ast.Node) bool {
+			as, ok := n.(*ast.AssignStmt)
+			if !ok || len(as.Lhs) != 1 || len(as.Rhs) != 1 {
+				return true
+			}
+			sel, ok := core.Unparen(as.Lhs[0]).(*ast.SelectorExpr)
+			if !ok || core.ObjOf(inf, sel.X) != recv {
+				return true
+			}
+			// new(T) / &T{} of a struct type that has a decoder
+			var t types.Type
+			switch r := core.Unparen(as.Rhs[0]).(type) {
+			case *ast.CallExpr:
+				if b, isB := core.ObjOf(inf, r.Fun).(*types.Builtin); isB && b.Name() == "new" && len(r.Args) == 1 {
+					t = inf.Types[r.Args[0]].Type
+				}
+			case *ast.UnaryExpr:
+				if cl, isLit := core.Unparen(r.X).(*ast.CompositeLit); isLit && r.Op == token.AND && len(cl.Elts) == 0 {
+					t = inf.Types[cl].Type
+				}
+			}
+			nn := namedOf(t)
+			if nn == nil {
+				return true
+			}
+			if _, isStruct := nn.Underlying().(*types.Struct); !isStruct {
+				return true
+			}
+			hasDecoder := false
+			for i := 0; i < nn.NumMethods(); i++ {
+				if nn.Method(i).Name() == "UnmarshalRestLi" {
+					hasDecoder = true
+				}
+			}
+			if !hasDecoder {
+				return true
+			}
+			// the enclosing statement list
+			list, idx := core.StmtListOf(par, as)
+			filled := false
+			for k := idx + 1; k >= 0 && k < len(list); k++ {
+				ast.Inspect(list[k], func(m ast.Node) bool {
+					call, ok := m.(*ast.CallExpr)
+					if !ok {
+						return true
+					}
+					if ms, ok := core.Unparen(call.Fun).(*ast.SelectorExpr); ok && core.SameExpr(inf, ms.X, sel) {
+						if ms.Sel.Name == "UnmarshalRestLi" || strings.HasPrefix(ms.Sel.Name, "populate") {
+							filled = true
+						}
+					}
+					return true
+				})
+			}
+			c.Check(filled, g.Rel, g.Name, "default of the record-typed field "+sel.Sel.Name+" is decoded into the new instance", as.Pos(), "",
+				"the field is set to a bare "+core.ExprString(as.Rhs[0])+": the defaults declared by "+nn.Obj().Name()+" itself are missing from the default value")
+			return true
+		})
+	}
+}
+
+func runR129(c *core.Ctx) {
+	n := 0
+	for _, rel := range generatorPkgs(c) {
+		p := c.M.Pkg(rel)
+		inf := p.TypesInfo
+		for _, fd := range c.M.FuncDecls(rel) {
+			if fd.Body == nil || strings.HasSuffix(c.M.Fset.File(fd.Pos()).Name(), "_test.go") {
+				continue
+			}
+			// package-level maps read and written here
+			type acc struct {
+				reads, stores []*ast.IndexExpr
+			}
+			accs := map[types.Object]*acc{}
+			lhs := map[*ast.IndexExpr]bool{}
+			ast.Inspect(fd.Body, func(x ast.Node) bool {
+				if as, ok := x.(*ast.AssignStmt); ok {
+					for _, l := range as.Lhs {
+						if ix, ok := core.Unparen(l).(*ast.IndexExpr); ok {
+							lhs[ix] = true
+						}
+					}
+				}
+				return true
+			})
+			ast.Inspect(fd.Body, func(x ast.Node) bool {
+				ix, ok := x.(*ast.IndexExpr)
+				if !ok {
+					return true
+				}
+				v, ok := core.ObjOf(inf, ix.X).(*types.Var)
+				if !ok || v.Pkg() == nil || v.Parent() != v.Pkg().Scope() {
+					return true
+				}
+				if _, isMap := v.Type().Underlying().(*types.Map); !isMap {
+					return true
+				}
+				a := accs[v]
+				if a == nil {
+					a = &acc{}
+					accs[v] = a
+				}
+				if lhs[ix] {
+					a.stores = append(a.stores, ix)
+				} else {
+					a.reads = append(a.reads, ix)
+				}
+				return true
+			})
+			for m, a := range accs {
+				if len(a.reads) == 0 || len(a.stores) == 0 {
+					continue
+				}
+				// a memo only if what is stored is what is returned
+				n++
+				inKey := map[types.Object]bool{}
+				keyNodes := map[ast.Node]bool{}
+				for _, ix := range append(append([]*ast.IndexExpr{}, a.reads...), a.stores...) {
+					ast.Inspect(ix.Index, func(y ast.Node) bool {
+						keyNodes[y] = true
+						if id, ok := y.(*ast.Ident); ok {
+							if o := inf.Uses[id]; o != nil {
+								inKey[o] = true
+							}
+						}
+						return true
+					})
+				}
+				var missing []string
+				for _, fl := range fd.Type.Params.List {
+					for _, nm := range fl.Names {
+						po := inf.Defs[nm]
+						if po == nil || inKey[po] {
+							continue
+						}
+						used := false
+						ast.Inspect(fd.Body, func(y ast.Node) bool {
+							if id, ok := y.(*ast.Ident); ok && inf.Uses[id] == po && !keyNodes[id] {
+								used = true
+							}
+							return true
+						})
+						if used {
+							missing = append(missing, nm.Name)
+						}
+					}
+				}
+				c.Check(len(missing) == 0, rel, core.DeclName(fd), "memo "+m.Name()+" is keyed by every parameter the result depends on", fd.Pos(), "",
+					"the value stored in "+m.Name()+" also depends on "+strings.Join(missing, ", ")+", which is not part of the key: a later call with a different value is served the stale entry")
+			}
+		}
+	}
+	if n == 0 {
+		c.OK("codegen/utils", "-", "the generator keeps no memo in a package-level map", token.NoPos, "")
+	}
 }
 
 func runR108(c *core.Ctx) {
